@@ -61,6 +61,13 @@ func (a *orValueLoader) Load(lex lexeme.LexEvent) bool {
 	return a.inProgress
 }
 
+// NewLine passes the end of a line to the rule-set being loaded.
+func (a *orValueLoader) NewLine() {
+	if a.ruleSetLoader != nil {
+		a.ruleSetLoader.NewLine()
+	}
+}
+
 // nodeTypesListConstraint returns TypesList constraint for node.
 func (a *orValueLoader) nodeTypesListConstraint() *constraint.TypesList {
 	c := a.node.Constraint(constraint.TypesListConstraintType)
